@@ -77,6 +77,8 @@ class Scenario:
     bound_quick = 1
     bound_thorough = 2
     media = False  # include the lazy media-resolution code in the scheduling set
+    extra_funcs = ()  # further functions of the library whose every line is a scheduling point in this scenario
+    extra_attrs = ()  # further shared-object attributes whose every mention is a scheduling point
 
     def setup(self):
         """reset global state; -> list of task callables"""
@@ -323,6 +325,58 @@ class S4b(Scenario):
         return [t1, t2]
 
 
+SCRIPT_CACHE_FUNCS = ("cache_component_js", "cache_component_css", "_cache_script", "_is_script_in_cache", "get_script_content",
+                      "get_script_tag", "_prepare_tags_and_urls", "cache_component_js_vars", "cache_component_css_vars")
+
+
+class S7(Scenario):
+    """two first renders (document mode, dependencies rendered) of the SAME component with inline js/css on a cold
+    script cache: has-key / set of the component script cache"""
+    name = "S7_cold_script_cache_same_component"
+    extra_funcs = SCRIPT_CACHE_FUNCS
+
+    def __init__(self):
+        self.cls = _mk("s7", "<html><head></head><body><div>s7</div></body></html>", extra={"js": "console.log('s7 js');", "css": ".s7{color:blue}"})
+
+    def setup(self):
+        from django_components import cache as djc_cache
+
+        self.reset_common()
+        if djc_cache.component_media_cache is not None:
+            djc_cache.component_media_cache.clear()
+        cls = self.cls
+
+        def t1():
+            return str(cls.render(type="document"))
+
+        def t2():
+            return str(cls.render(type="document"))
+
+        return [t1, t2]
+
+    def after(self):
+        return residue_problems()
+
+
+class S8(Scenario):
+    """two threads render the same, never rendered Template object whose component tag carries list / dict / spread
+    arguments: the lazily compiled argument structures of a parsed template are shared between threads"""
+    name = "S8_first_render_of_shared_template"
+    extra_attrs = ("compiled",)
+    extra_funcs = ("compile",)
+
+    def __init__(self):
+        _mk("s8", "(s8:{{ a }}|{{ b }}|{{ c }})", lambda self, a=None, b=None, c=None, **kw: {"a": a, "b": b, "c": c})
+
+    def setup(self):
+        from django.template import Template
+
+        self.reset_common()
+        t = Template('{% component "s8" a=[1, x, *y] b={"k": x, **z} c=x|add:1 / %}')
+        ctx = {"x": 2, "y": [3, 4], "z": {"m": 5}}
+        return [_render_tpl(t, ctx), _render_tpl(t, ctx)]
+
+
 class S5(Scenario):
     """first use of the lazily created caches and of the component-tag subclass registry"""
     name = "S5_lazy_singletons"
@@ -364,7 +418,9 @@ class S6(Scenario):
     def __init__(self):
         from django.template import Template
 
-        _mk("s6leaf", "<b>leaf{{ n }}</b>", lambda self, n=0, **kw: {"n": n})
+        # the leaves echo Component.id next to the element that carries it: ids are deterministic per thread
+        # (thread-prefixed counters), so the un-normalised output of a thread must equal its solo output
+        _mk("s6leaf", "<b>leaf{{ n }}[{{ my_id }}]</b>", lambda self, n=0, **kw: {"n": n, "my_id": self.id})
         _mk("s6mid", "<div>{% slot 'x' %}{% component 's6leaf' n=1 / %}{% endslot %}{% component 's6leaf' n=2 / %}</div>")
         _mk("s6bad", "<div>{% component 's6leaf' n=3 / %}{% component 's6boom' / %}</div>")
         _mk("s6boom", "never", lambda self, **kw: (_ for _ in ()).throw(Boom("boom")))
@@ -372,11 +428,24 @@ class S6(Scenario):
         self.tb = Template("{% component 's6bad' / %}")
 
     def setup(self):
+        from django.template import Context
+
+        # warm-up in the main thread: the component templates are compiled (compilation draws node ids from the
+        # id seam) before the threads start, so that the ids a thread sees do not depend on who compiles first
+        for t in (self.ta, self.tb):
+            try:
+                t.render(Context({}))
+            except Boom:
+                pass
         self.reset_common()
-        return [_render_tpl(self.ta), _render_tpl(self.tb)]
+
+        def raw(t):
+            return lambda: str(t.render(Context({})))
+
+        return [raw(self.ta), raw(self.tb)]
 
 
-SCENARIOS = {c.name: c for c in (S1, S1c, S2, S3, S3b, S3c, S4, S4b, S5, S6)}
+SCENARIOS = {c.name: c for c in (S1, S1c, S2, S3, S3b, S3c, S4, S4b, S5, S6, S7, S8)}
 _SC = {}
 _SET = {}
 
@@ -387,15 +456,16 @@ def get_scenario(name):
     return _SC[name]
 
 
-def get_set(media=True):
-    if media not in _SET:
-        _SET[media] = sched.scheduling_set(media)
-    return _SET[media]
+def get_set(media=True, extra_funcs=(), extra_attrs=()):
+    key = (media, tuple(extra_funcs), tuple(extra_attrs))
+    if key not in _SET:
+        _SET[key] = sched.scheduling_set(media, extra_funcs, extra_attrs)
+    return _SET[key]
 
 
 def run_one(name, prefix, solo=None):
     sc = get_scenario(name)
-    lines, files, _ = get_set(sc.media)
+    lines, files, _ = get_set(sc.media, sc.extra_funcs, sc.extra_attrs)
     tasks = sc.setup()
     if solo is not None:
         s = sched.Scheduler([tasks[solo]], [], lines, files, id_prefixes=[chr(ord("b") + solo)])
